@@ -71,7 +71,7 @@ func parseString(filename string, input antlr.CharStream) (tree parser.ISysl_fil
 	defer func() {
 		// recover from panic if one occurred. Set err to nil otherwise.
 		if recover() != nil {
-			err = syslutil.Exitf(ParseError, fmt.Sprintf("%s has syntax errors\n", filename))
+			err = syslutil.Exitf(ParseError, "%s", fmt.Sprintf("%s has syntax errors\n", filename))
 		}
 	}()
 
@@ -87,7 +87,7 @@ func parseString(filename string, input antlr.CharStream) (tree parser.ISysl_fil
 	p.BuildParseTrees = true
 	tree = p.Sysl_file()
 	if errorListener.hasErrors {
-		return nil, syslutil.Exitf(ParseError, fmt.Sprintf("%s has syntax errors\n", filename))
+		return nil, syslutil.Exitf(ParseError, "%s", fmt.Sprintf("%s has syntax errors\n", filename))
 	}
 	return tree, nil
 }
@@ -107,7 +107,7 @@ func importForeign(def importDef, input antlr.CharStream) (antlr.CharStream, err
 	case importer.SyslPB.Name:
 		m, err := pbutil.FromPBByteContents(fileName, []byte(file))
 		if err != nil {
-			return nil, syslutil.Exitf(ParseError, fmt.Sprintf("%s has unknown format: %s", fileName, err))
+			return nil, syslutil.Exitf(ParseError, "%s", fmt.Sprintf("%s has unknown format: %s", fileName, err))
 		}
 		var buf bytes.Buffer
 		printer.Module(&buf, m)
@@ -117,20 +117,20 @@ func importForeign(def importDef, input antlr.CharStream) (antlr.CharStream, err
 	case importer.OpenAPI3.Name, importer.OpenAPI2.Name, importer.Protobuf.Name:
 		imp, err := importer.Factory(fileName, false, "", []byte(file), logger)
 		if err != nil {
-			return nil, syslutil.Exitf(ParseError, fmt.Sprintf("%s has unknown format: %s", fileName, err))
+			return nil, syslutil.Exitf(ParseError, "%s", fmt.Sprintf("%s has unknown format: %s", fileName, err))
 		}
 		imp, err = imp.Configure(&importer.ImporterArg{AppName: def.appname, PackageName: def.pkg, Imports: ""})
 		if err != nil {
-			return nil, syslutil.Exitf(ParseError, err.Error())
+			return nil, syslutil.Exitf(ParseError, "%s", err.Error())
 		}
 		// FIXME: because filepath information is not provided, external references are ignored in OpenAPI3.
 		output, err := imp.Load(file)
 		if err != nil {
-			return nil, syslutil.Exitf(ParseError, fmt.Sprintf("%s has unknown format: %s", fileName, err))
+			return nil, syslutil.Exitf(ParseError, "%s", fmt.Sprintf("%s has unknown format: %s", fileName, err))
 		}
 		return antlr.NewInputStream(output), nil
 	default:
-		return nil, syslutil.Exitf(ParseError, fmt.Sprintf("%s has unknown format", fileName))
+		return nil, syslutil.Exitf(ParseError, "%s", fmt.Sprintf("%s has unknown format", fileName))
 	}
 }
 
@@ -442,7 +442,7 @@ func (p *Parser) checkSameImport(filenameIndex retrievedListIndex, first, second
 	appname1 := strings.ReplaceAll(first.appname, " :: ", "::")
 	appname2 := strings.ReplaceAll(second.appname, " :: ", "::")
 	if appname1 != appname2 {
-		return syslutil.Exitf(ImportError, fmt.Sprintf(
+		return syslutil.Exitf(ImportError, "%s", fmt.Sprintf(
 			"%#v imported as different appnames: '%v' and '%v'", filenameIndex, appname1, appname2,
 		))
 	}
@@ -470,7 +470,7 @@ func (p *Parser) checkSameImport(filenameIndex retrievedListIndex, first, second
 	}
 
 	if ver1 != ver2 {
-		return syslutil.Exitf(ImportError, fmt.Sprintf(
+		return syslutil.Exitf(ImportError, "%s", fmt.Sprintf(
 			"%#v imported as different versions: '%v' and '%v'", filenameIndex, ver1, ver2,
 		))
 	}
@@ -483,7 +483,7 @@ func retrieveSpec(ctx context.Context, fi *fileInfo, reader reader.Reader) error
 	source := fi.src.src
 	content, hash, branch, err := reader.ReadHashBranch(ctx, source.filename)
 	if err != nil {
-		return syslutil.Exitf(ImportError, fmt.Sprintf(
+		return syslutil.Exitf(ImportError, "%s", fmt.Sprintf(
 			"error reading %#v: \n%v\n", source.filename, err,
 		))
 	}
@@ -507,7 +507,7 @@ func retrieveSpec(ctx context.Context, fi *fileInfo, reader reader.Reader) error
 // importedFrom wraps an error with the chain of files whose import statements led to it.
 func importedFrom(importer *fileInfo, err error) error {
 	for ; err != nil && importer != nil; importer = importer.importer {
-		err = syslutil.Exitf(ImportError, fmt.Sprintf(
+		err = syslutil.Exitf(ImportError, "%s", fmt.Sprintf(
 			"error reading %#v: \n%v", importer.src.src.filename, err,
 		))
 	}
